@@ -12,6 +12,11 @@
 #include "fiber_manager.h"
 #include "mpmc_lifo.h"
 
+#ifdef LIBFIBER_VERIF
+/* verification hook (off unless LIBFIBER_VERIF is defined) */
+extern void libfiber_verif_fiber_created(fiber_t* f, int from_thread);
+#endif
+
 void fiber_mark_completed(fiber_t* the_fiber, void* result) {
   atomic_store_explicit(&the_fiber->result, result, memory_order_release);
 
@@ -87,6 +92,9 @@ fiber_t* fiber_create_no_sched(size_t stack_size,
     return NULL;
   }
 
+#ifdef LIBFIBER_VERIF
+  libfiber_verif_fiber_created(ret, 0);
+#endif
   return ret;
 }
 
@@ -121,6 +129,9 @@ fiber_t* fiber_create_from_thread() {
     free(ret);
     return NULL;
   }
+#ifdef LIBFIBER_VERIF
+  libfiber_verif_fiber_created(ret, 1);
+#endif
   return ret;
 }
 
